@@ -267,7 +267,7 @@ func C06(r *ev.Report) {
 	wit := alpha.ReductionWitnesses(ref.N)
 	vals = alpha.WithWitnesses(vals, ref.N)
 
-	r.Rule("Add/Subtract/Multiply on all ordered pairs of the value alphabet V_n (canonical- and Montgomery-structured limb products, closed under negation and +-1) in the aliasing shapes distinct/same; Square, Invert on all of V_n; Pow on a slice of V_n x exponent alphabet incl. nil and s.Pow(s); SetUInt64 on a uint64 alphabet; constants and nil operands from every prior receiver value; non-trivial = both operands >= 2^64")
+	r.Rule("Add/Subtract/Multiply on all ordered pairs of the value alphabet V_n (canonical- and Montgomery-structured limb products, closed under negation and +-1) in the aliasing shapes distinct/same; Square, Invert on all of V_n; Pow on a slice of V_n x exponent alphabet incl. nil and s.Pow(s); SetUInt64 on a uint64 alphabet (incl. low limbs that produce boundary quotient digits); unary sweeps also on the solved members (operands whose Montgomery quotient digits are structured, final-subtraction inputs of ToMontgomery), Multiply also on the solved quotient pairs; constants and nil operands from every prior receiver value; non-trivial = both operands >= 2^64")
 	r.Bound("values", len(vals))
 	r.Bound("pair_values", len(pairVals))
 	r.Bound("solved_quotient_pairs", len(wit.Pairs))
